@@ -135,6 +135,39 @@ fn('MultiValueTracker.get#kinds', None, self_cls='MultiValueTracker', pure=True,
 from pyvc.pylib import proj_r_term, proj_r_axiom, card
 
 
+def _card(c):
+    return card(TKey, c.old._tracked_keys.dom)
+
+
+# ---- get_normalized, value level (plain python numbers: what the explainers use) -------------------------------
+def _rawp(c):
+    return pure_call('MultiValueTracker.get', c.old)
+
+
+def _sp(c):
+    raw = _rawp(c)
+    return lemmas.msum_dv(NumDict, raw.dom, raw.val)
+
+
+def _norm_lemmas_plain(c):
+    raw = _rawp(c)
+    return lemmas.msum_scale(NumDict, raw.dom, c.res.val, raw.val, 1 / _sp(c))
+
+
+fn('MultiValueTracker.get_normalized', F, pure=True, ret=NumDict, lemmas=_norm_lemmas_plain,
+   ensures={
+       'keys': lambda c: c.res.dom == c.old._tracked_keys.dom,
+       'single_raw': lambda c: implies(_card(c) <= 1, c.res.t == _rawp(c).t),
+       'ratios': lambda c: implies(land(_card(c) > 1, _sp(c) != 0), forall_key(
+           lambda k: implies(c.res.dom[k], c.res.val[k] * _sp(c) == _rawp(c).val[k]))),
+       'sums_to_one': lambda c: implies(land(_card(c) > 1, _sp(c) != 0),
+                                        lemmas.msum_dv(NumDict, c.res.dom, c.res.val) == 1),
+       'zero_sum': lambda c: implies(land(_card(c) > 1, _sp(c) == 0), forall_key(
+           lambda k: implies(c.res.dom[k], c.res.val[k] == 0))),
+   })
+
+
+# ---- get_normalized with numeric kinds (C12: "values of any real numeric type") ----------------------------------
 def _raw(c):
     """what the getter returns (values proved, numeric kinds arbitrary)"""
     return pure_call('MultiValueTracker.get#kinds', c.old)
@@ -145,10 +178,6 @@ def _s(c):
     return lemmas.msum_dv(NumDict, raw.dom, proj_r_term(raw.val))
 
 
-def _card(c):
-    return card(TKey, c.old._tracked_keys.dom)
-
-
 def _norm_lemmas(c):
     raw = _raw(c)
     s = _s(c)
@@ -156,7 +185,7 @@ def _norm_lemmas(c):
         lemmas.msum_scale(NumDict, raw.dom, proj_r_term(c.res.val), proj_r_term(raw.val), 1 / s)
 
 
-fn('MultiValueTracker.get_normalized', F, pure=True, ret=NumKDict, lemmas=_norm_lemmas,
+fn('MultiValueTracker.get_normalized#kinds', F, src_name='get_normalized', pure=True, ret=NumKDict, lemmas=_norm_lemmas,
    callee_variants={'MultiValueTracker.get': 'MultiValueTracker.get#kinds'},
    ensures={
        'keys': lambda c: c.res.dom == c.old._tracked_keys.dom,
